@@ -31,6 +31,7 @@ structure MsgDesc where
   dateLike : Bool          -- Date / DateTime / Time / Instant
   isReference : Bool
   refString : Option Nat   -- id of the synthesised reference string (none: no reference set)
+  primOk : Bool            -- `system.From(message)` succeeds (the message is a FHIR primitive)
   fields : List FieldDesc
 deriving DecidableEq, Repr
 
@@ -42,36 +43,58 @@ inductive Out where
   | synthValue             -- `.value` of a date/time primitive rendered as a string
 deriving DecidableEq, Repr
 
+def hiddenDateField (name : String) : Bool := name == "valueUs" || name == "precision" || name == "timezone"
+
 def gateOk (name : String) (dateLike : Bool) : Bool :=
   !(name.toList.contains '_') && (match name.toList with | c :: _ => !c.isUpper | [] => true) &&
-  !(dateLike && (name == "valueUs" || name == "precision" || name == "timezone"))
+  !(dateLike && hiddenDateField name)
 
 def unwrapChild : Child → List Out
   | .plain id => [.node id]
   | .choice id chosen => match chosen with | some c => [.node c] | none => [.node id]
   | .contained _ inner => match inner with | some r => [.node r] | none => []   -- an empty wrapper holds no element
 
+/-- where a requested name lands on a message whose fields are `names` (proto name, JSON name) -/
+inductive Slot where
+  | field (i : Nat)
+  | synthRef
+  | synthValue
+  | invalid
+deriving DecidableEq, Repr
+
+def findProto (names : List (String × String)) (p : String) : Option Nat := names.findIdx? (fun n => n.1 == p)
+def findJson (names : List (String × String)) (j : String) : Option Nat := names.findIdx? (fun n => n.2 == j)
+
+/-- the lookup order of `FieldExpression.Evaluate`: proto name of the snake-cased request; the
+    synthesised `reference` / `value`; the JSON name; the `_value` retry -/
+def resolveSlot (names : List (String × String)) (isRef dateLike : Bool) (name snake : String) : Slot :=
+  match findProto names snake with
+  | some i => .field i
+  | none =>
+    if snake == "reference" && isRef then .synthRef
+    else if snake == "value" && dateLike then .synthValue
+    else match findJson names name with
+      | some i => .field i
+      | none => match findProto names (snake ++ "_value") with
+        | some i => .field i
+        | none => .invalid
+
+def MsgDesc.names (m : MsgDesc) : List (String × String) := m.fields.map fun f => (f.proto, f.json)
+
+def emit (m : MsgDesc) (selfId : Nat) (f : FieldDesc) : Res (List Out) :=
+  if !f.isMsg then (if m.primOk then .ok [.prim selfId] else .err "cant-be-cast")
+  else .ok (f.vals.flatMap unwrapChild)
+
 /-- `FieldExpression.Evaluate` on ONE message (`selfId` = its identity) -/
 def fieldStep (name snake : String) (selfId : Nat) (m : MsgDesc) : Res (List Out) :=
   if !gateOk name m.dateLike then .err "invalid-field" else
-  let byProto := fun (p : String) => m.fields.find? (fun f => f.proto == p)
-  let field : Option FieldDesc := match byProto snake with
-    | some f => some f
-    | none => none
-  match field with
-  | some f => emit f
-  | none =>
-    if snake == "reference" && m.isReference then
-      .ok (match m.refString with | some s => [.synthRef s] | none => [])
-    else if snake == "value" && m.dateLike then .ok [.synthValue]
-    else match m.fields.find? (fun f => f.json == name) with
-      | some f => emit f
-      | none => match byProto (snake ++ "_value") with
-        | some f => emit f
-        | none => .err "invalid-field"
-where
-  emit (f : FieldDesc) : Res (List Out) :=
-    if !f.isMsg then .ok [.prim selfId] else .ok (f.vals.flatMap unwrapChild)
+  match resolveSlot m.names m.isReference m.dateLike name snake with
+  | .field i => (match m.fields[i]? with
+    | some f => emit m selfId f
+    | none => .err "invalid-field")   -- not reachable: the index comes from `names`
+  | .synthRef => .ok (match m.refString with | some s => [.synthRef s] | none => [])
+  | .synthValue => .ok [.synthValue]
+  | .invalid => .err "invalid-field"
 
 /-- the step over a whole collection of messages: results concatenated in order; the first error wins -/
 def fieldStepAll (name snake : String) : List (Nat × MsgDesc) → Res (List Out)
